@@ -627,6 +627,7 @@ def c14b(chk):
         chk.ob("C14.b", "calculate/%s/normalised=%s" % (v, norm), has == norm, f.loc(),
                "%s must%s be computed on the normalised spectrum (scale-invariant statistics normalise; linear ones must scale with the input)" % (v, "" if norm else " not"))
     stat_run_hands_spectrum_on(chk, "C14.b")
+    stat_runner_prints_value_as_computed(chk, "C14.b")
 
 
 def stat_run_hands_spectrum_on(chk, rule):
@@ -688,9 +689,14 @@ def stat_runner_prints_value_as_computed(chk, rule):
     prog = chk.prog
     import rules_io as RIO
     fns = [g for g in prog.fn_list if not g.derived and g.path.startswith("sfs::stat::runner::")]
+    # ... and so does the dispatch from the CLI's Statistic to the library (`.max(0.0)` on Fst, `.round()` on S are reported values that
+    # the statistic never had)
+    calc = prog.fn("sfs::stat::Statistic::calculate")
+    if calc is not None:
+        fns += [calc] + prog.closures_of(calc.path)
     comp = RIO.float_computation_in(prog, fns)
     chk.ob(rule, "stat::runner/prints-the-computed-value(no-float-computation)", len(fns) >= 1 and not comp, "",
-           "f64 operations in %d functions of sfs::stat::runner: %s" % (len(fns), comp or "none"))
+           "f64 operations in %d functions of sfs::stat::runner and Statistic::calculate: %s" % (len(fns), comp or "none"))
 
 
 def const_index_arrays(chk, f):
